@@ -217,7 +217,51 @@ def check_key_aliasing(run, rule, analyses):
     run.floor(rule, 1, "negative-label readers")
 
 
+def check_tables_append(run, rule):
+    """Reading a block table keeps every entry at its position: the store used for a decoded entry appends unconditionally.  A
+    find-or-insert store (the one the *writer* side uses to deduplicate) drops an entry equal to an earlier one - legal in a
+    file - and shifts every later index."""
+    facts = run.facts
+    f = facts.fn("CDNS::CdnsBlockRead::read_blocktables", rule=rule)
+    n = 0
+
+    def appends_unconditionally(g, depth=0):
+        env = ir.Env(g["body"])
+        for st, gd, loops in ir.guarded_statements(g["body"], env):
+            if st.get("k") in ("IfCond", "LoopHead", "SwitchHead"):
+                continue
+            for c in ir.calls_in(st):
+                if callee_name(c) in ("push_back", "emplace_back") and gd == ("T",) and not loops:
+                    return True
+                cal = c.get("callee") or {}
+                if cal.get("inrepo") and cal.get("cls") == g.get("cls") and gd == ("T",) and not loops and depth < 3:
+                    for h in facts.fns(cal.get("qn")):
+                        if h["sig"] == cal.get("sig") and h.get("targs", "") == g.get("targs", "") and h.get("body") is not None and h["key"] != g["key"]:
+                            if appends_unconditionally(h, depth + 1):
+                                return True
+        return False
+    for c in ir.calls_in(f["body"]):
+        cal = c.get("callee") or {}
+        if c.get("k") != "MCall" or not (cal.get("cls") or "").startswith("CDNS::BlockTable<"):
+            continue
+        rp = path(c.get("recv"))
+        if not (rp and rp[0] == "this" and len(rp) == 2) or cal.get("const") or callee_name(c) in ("clear", "size", "begin", "end"):
+            continue
+        n += 1
+        cands = [h for h in facts.fns(cal.get("qn")) if h["sig"] == cal.get("sig") and h.get("cls") == cal.get("cls") and h.get("body") is not None]
+        if not cands:
+            run.ob(rule, "read_blocktables:%s.%s" % (rp[1], callee_name(c)), None, f, c.get("l", 0), "body of %s not found" % cal.get("qn"))
+            continue
+        ok = appends_unconditionally(cands[0])
+        run.ob(rule, "read_blocktables:%s.%s" % (rp[1], callee_name(c)), ok, f, c.get("l", 0),
+               "every decoded entry is appended" if ok else
+               "%s() stores a decoded entry only if the table does not hold an equal one yet: a file whose table repeats a value reads back with "
+               "a shorter table, and every index behind the repeated entry resolves to the wrong value" % callee_name(c))
+    run.floor(rule, 9, "block tables filled by the reader")
+
+
 def check(run):
+    check_tables_append(run, "R08.7")
     # chunked strings: every chunk is appended (imported from C07)
     from . import C07
     C07.check_string_accumulates(run, "R08.6")
